@@ -21,6 +21,7 @@ func main() {
 	verif := flag.String("verif", "/verif", "verification directory")
 	list := flag.Bool("list", false, "list implemented properties")
 	selftest := flag.Bool("selftest", false, "run checker self-test mutations for the property (overlay, no files written)")
+	patch := flag.String("patch", "", "development aid: judge the tree with this unified diff applied in memory; prints new failures and undecided reasons, writes nothing")
 	flag.Parse()
 	// go/packages runs whatever `go` is first on PATH; the default go (1.23) cannot parse /repo/go.mod.
 	os.Setenv("PATH", "/opt/veriftools/go1.26.8/bin:"+os.Getenv("PATH"))
@@ -50,6 +51,26 @@ func main() {
 	if !ok {
 		fmt.Printf("UNDECIDED property=%s reason=no such check\n", *prop)
 		os.Exit(2)
+	}
+	if *patch != "" {
+		text, err := os.ReadFile(*patch)
+		if err != nil {
+			fmt.Println("cannot read patch:", err)
+			os.Exit(2)
+		}
+		ov, why := applyUnifiedDiff(*repo, string(text))
+		if ov == nil {
+			fmt.Printf("PATCH-SKIP property=%s %s\n", *prop, why)
+			os.Exit(3)
+		}
+		res := runCheck(*prop, "quick", *repo, *verif, ov, fn, true)
+		for _, o := range res.run.newFailures() {
+			fmt.Printf("PATCH-FAIL property=%s %s — %s\n", *prop, o.Key(), o.Detail)
+		}
+		for _, u := range res.run.Undecided {
+			fmt.Printf("PATCH-UNDECIDED property=%s %s\n", *prop, u)
+		}
+		os.Exit(res.code)
 	}
 	if *selftest {
 		os.Exit(runSelfTest(*prop, fn, *repo, *verif))
